@@ -18,7 +18,7 @@ func vfKey(name string) *keys.PublicKey {
 	return &keys.PublicKey{X: vfBig(name+".x", 257), Y: vfBig(name+".y", 257)}
 }
 
-func vfMName(name string) string {
+func vhName(name string) string {
 	n := vfChoose(name+".len", 1, 2)
 	return string(vfBytes(name, n))
 }
@@ -55,7 +55,7 @@ func vfMakePerm(tag string) (Permission, vfPermSpec) {
 	} else {
 		p.Methods.Value = []string{}
 		for i := 0; i < nm; i++ {
-			m := vfMName(tag + ".m")
+			m := vhName(tag + ".m")
 			p.Methods.Value = append(p.Methods.Value, m)
 			sp.methods = append(sp.methods, m)
 		}
@@ -112,7 +112,7 @@ func vfCallee() (util.Uint160, *Manifest, []*keys.PublicKey) {
 func VF_C16_permission_is_allowed() {
 	p, sp := vfMakePerm("p")
 	h, m, gs := vfCallee()
-	method := vfMName("method")
+	method := vhName("method")
 	got := p.IsAllowed(h, m, method)
 	want := sp.allows(h, gs, method)
 	vfKnown("group-permission-ignores-methods", sp.kind == 2 && !sp.wildM)
@@ -137,7 +137,7 @@ func VF_C16_manifest_can_call() {
 		}
 	}
 	h, m, gs := vfCallee()
-	method := vfMName("method")
+	method := vhName("method")
 	got := caller.CanCall(h, m, method)
 	want := false
 	for i := range sps {
